@@ -37,6 +37,9 @@ def items(tier):
     for sp in F.auto_component_specs():
         for aa in (False, True):
             out.append((sp, {"rule": "TSLACK", "auto_abs": aa, "max_time": F.seq_bound(sp) + 12}))
+    for k in (3, 4, 5, 7):
+        out.append((F.many_components_spec(k), {"rule": "TSLACK", "max_time": 12}))
+    out.append((F.idle_component_spec(), {"rule": "TSLACK", "max_time": 14}))
     sc = F.shared_child_spec()
     for extra in ({}, {"backward": True, "rev": True}, {"backward": True, "rev": False}, {"post_insert": [2, 1]}, {"post_insert": [3, 1, 2]}, {"reload": True}):
         out.append((sc, dict({"rule": "TSLACK", "max_time": 20}, **extra)))
